@@ -217,7 +217,7 @@ func TestVerifRaftx(t *testing.T) {
 			Describe: desc.describe, MaxDepth: cfg.MaxDepth, MaxStates: run.Pick(1500000, 12000000),
 			Workers: 16, Run: run, Res: sub, KeyOf: keyOfX, Chain: cfg.MaxDev > 0 && part != "c17",
 			OnState: func(inst verifkit.Instance, path []uint32) {
-				if len(path) == 8 {
+				if len(path) >= 8 {
 					res.Sample(2, verifkit.PathString(path, desc.describe))
 				}
 				if part == "c17" {
